@@ -180,7 +180,7 @@ func (check) Run(seed int64, tier string, idx int, verbose bool) harness.Result 
 			if err != nil {
 				return errClass(err)
 			}
-			s, err := obs.Top(c)
+			s, err := rawTop(c)
 			if err != nil {
 				return "unpack-" + errClass(err)
 			}
@@ -198,8 +198,13 @@ func (check) Run(seed int64, tier string, idx int, verbose bool) harness.Result 
 			// list positions) below it holding a primitive or nil
 			shape = "random-two-spellings"
 			var short *model.Node
-			sk := r.Intn(6)
+			sk := r.Intn(8)
 			switch sk {
+			case 6:
+				// an object holding explicit nulls (settings of their own) next to a value
+				short = model.Dict().Set(k2+"n", model.Nil()).Set("l", model.List(model.Nil(), model.P(uint64(2)))).Set("w", model.P("other"))
+			case 7:
+				short = model.Dict().Set("z", model.Nil())
 			case 0:
 				short = model.P([]interface{}{uint64(5), "s", true}[r.Intn(3)])
 			case 1:
@@ -260,7 +265,7 @@ func (check) Run(seed int64, tier string, idx int, verbose bool) harness.Result 
 			if err != nil {
 				return errClass(err)
 			}
-			s, err := obs.Top(c)
+			s, err := rawTop(c)
 			if err != nil {
 				return "unpack-" + errClass(err)
 			}
@@ -288,7 +293,7 @@ func (check) Run(seed int64, tier string, idx int, verbose bool) harness.Result 
 					return errClass(err)
 				}
 			}
-			s, err := obs.Top(c)
+			s, err := rawTop(c)
 			if err != nil {
 				return "unpack-" + errClass(err)
 			}
@@ -389,7 +394,7 @@ func (check) Run(seed int64, tier string, idx int, verbose bool) harness.Result 
 			if err := c.Merge(permGo(pr, b), pol...); err != nil {
 				return errClass(err)
 			}
-			s, err := obs.Top(c, ucfg.PathSep("."), ucfg.VarExp)
+			s, err := rawTop(c, ucfg.PathSep("."), ucfg.VarExp)
 			if err != nil {
 				return "unpack-" + errClass(err)
 			}
@@ -471,6 +476,70 @@ func (check) Run(seed int64, tier string, idx int, verbose bool) harness.Result 
 		}
 	}
 	return res.Done()
+}
+
+// rawTop observes a config like obs.Top but renders the data RAW: a key holding
+// nil is not the same as an absent key, nil, {} and [] differ, numbers carry
+// their Go type. Whatever the right outcome is (other properties decide that),
+// repeating the identical call must give the identical outcome, so nothing needs
+// to be equated here. FlattenedKeys, the top-level names and the container kinds
+// are part of the outcome.
+func rawTop(c *ucfg.Config, opts ...ucfg.Option) (string, error) {
+	var m map[string]interface{}
+	var a []interface{}
+	if err := c.Unpack(&m, opts...); err != nil {
+		return "", fmt.Errorf("unpack into map: %w", err)
+	}
+	if err := c.Unpack(&a, opts...); err != nil {
+		return "", fmt.Errorf("unpack into slice: %w", err)
+	}
+	var b strings.Builder
+	rawRender(&b, m)
+	b.WriteByte('|')
+	rawRender(&b, a)
+	keys := c.FlattenedKeys(opts...)
+	sort.Strings(keys)
+	fields := c.GetFields()
+	sort.Strings(fields)
+	fmt.Fprintf(&b, "|keys=%q|fields=%q|dict=%v|arr=%v", keys, fields, c.IsDict(), c.IsArray())
+	return b.String(), nil
+}
+
+func rawRender(b *strings.Builder, v interface{}) {
+	switch x := v.(type) {
+	case nil:
+		b.WriteString("nil")
+	case map[string]interface{}:
+		if x == nil {
+			b.WriteString("nilmap")
+			return
+		}
+		ks := make([]string, 0, len(x))
+		for k := range x {
+			ks = append(ks, k)
+		}
+		sort.Strings(ks)
+		b.WriteByte('{')
+		for _, k := range ks {
+			fmt.Fprintf(b, "%q:", k)
+			rawRender(b, x[k])
+			b.WriteByte(',')
+		}
+		b.WriteByte('}')
+	case []interface{}:
+		if x == nil {
+			b.WriteString("nilslice")
+			return
+		}
+		b.WriteByte('[')
+		for _, e := range x {
+			rawRender(b, e)
+			b.WriteByte(',')
+		}
+		b.WriteByte(']')
+	default:
+		fmt.Fprintf(b, "%T(%v)", v, v)
+	}
 }
 
 // sigOf names the order-dependence by call kind and by the kinds of outcomes.
